@@ -147,6 +147,17 @@ impl Ctx {
         out
     }
 
+    /// One evaluation on a 2 MiB stack (the stack a CLI pool worker really has).
+    pub fn eval_small_stack(&mut self, id: &str, src: &str, cfg: &Cfg, range: Range) -> Outcome {
+        self.note_progress(id, src, cfg, range);
+        self.case_clock.store(now_ms(), std::sync::atomic::Ordering::SeqCst);
+        let out = fmt::run_with_stack(src, cfg, range, 2 << 20);
+        self.case_clock.store(0, std::sync::atomic::Ordering::SeqCst);
+        self.evals += 1;
+        *self.counters.entry("evaluations_on_2MiB_stack".to_string()).or_insert(0) += 1;
+        out
+    }
+
     pub fn sample(&mut self, v: Value) {
         if self.samples.len() < 3 {
             self.samples.push(v);
